@@ -217,7 +217,7 @@ def _enum_cases(cls_name):
     muts = [m for m in FIXED_ARGS if cls_name == "acc" or m not in ACC_ONLY]
 
     def enum(tier, shard, nshards):
-        lengths = [96] if tier == "quick" else [95, 96, 128]
+        lengths = [96] if tier == "quick" else [65, 95, 96, 128, 130]
         i = 0
         for n in lengths:
             for mask in range(2 ** len(state)):
@@ -256,7 +256,7 @@ def _exhaustive(case, ctx):
 
 enum_clause(CLAUSES, "exhaustive-acc", _enum_cases("acc"),
             rule="AccSignal: every subset of {fa, smooth_fa, velocity/displacement, pga, pgv, pgd, response spectra} read (2^7) x every "
-                 "mutator / settings change (24) on a fixed record (quick n=96; thorough n in {95,96,128}); each case then compares all 15 "
+                 "mutator / settings change (24) on a fixed record (quick n=96; thorough n in {65,95,96,128,130}); each case then compares all 15 "
                  "observables, each on its own deep copy and once more sequentially; non-trivial = at least one quantity was read before the change",
             oracle="differential against a fresh object (1e-10 of magnitude); second read identical",
             exhaustive_note="complete over cache state x mutator x observable for the listed records",
